@@ -258,6 +258,29 @@ def run(ck, F):
         ck.check(R_mr, contracts.short(cls), bool(reg) and bool(mem) and not bad, f'{cls}: ' + '; '.join(sorted(set(bad))[:2]) +
                  ': scope() and members() do not speak of the same declarations', loc=F.rec[cls]['loc'])
 
+    # a convenience member is non-virtual: a member of the same name further down hides it for that static type, and the two answers
+    # can then differ for one node depending on the type it is looked at through
+    R_hid = ck.rule('C15.conveniences-not-hidden', 'no class derived from an interface class declares a member named like one of that class\'s '
+                    'non-virtual convenience members (which would hide it for that static type), except the confirmed pairs whose hiding '
+                    'member is the primitive the convenience is defined by', floor=100)
+    CONFIRMED_HIDING = {('ipr::Product', 'size'): 'the implementations\' size() is the size of the element sequence itself',
+                        ('ipr::Scope', 'size'): 'the implementations\' size() is the size of the element sequence itself'}
+    for n_, r_ in sorted(F.rec.items()):
+        if not n_.startswith('ipr::') or n_.startswith(('ipr::impl::', 'ipr::util::', 'ipr::cxx_form::impl::', 'ipr::xpr')) or r_.get('lambda'):
+            continue
+        conv = [m for m in r_['methods'] if not m['virtual'] and not m['static'] and not m['implicit'] and not m.get('ctor') and not m.get('dtor')
+                and not m.get('conv') and m['access'] == 'public' and not m['name'].startswith('operator')
+                and m['id'] in F.fn and F.fn[m['id']].get('body')]
+        for m in conv:
+            hiders = sorted({d_ for d_, rd_ in F.rec.items() if d_ != n_ and F.derives_from(d_, n_)
+                             and any(x['name'] == m['name'] and not x['implicit'] for x in rd_['methods'])})
+            if hiders and (n_, m['name']) in CONFIRMED_HIDING:
+                hiders = []
+            ck.check(R_hid, f'{contracts.short(n_)}::{m["name"]}', not hiders,
+                     f'{n_}::{m["name"]} (a non-virtual convenience) is hidden by a member of the same name in {[contracts.short(h) for h in hiders[:3]]}: '
+                     'through that static type the node answers with the hiding member, through the interface with the convenience',
+                     loc=(F.rec[hiders[0]]['loc'] if hiders else r_['loc']))
+
     # ---- Block
     expect('ipr::Block', 'body', 'this.region().body()')
     for f in fns('ipr::Block', 'try_block', 0):
